@@ -37,7 +37,11 @@ def run(ctx):
     # VERIF_C29_SMOKE=1: reduced plan (no MC, fewer behaviours) for trying mutants quickly; never used by the manifest
     smoke = os.environ.get("VERIF_C29_SMOKE") == "1"
     if not smoke:
-        ctx.tlc_mc("data", "HeaderMapMC", consts={"MAXH": ctx.pick(2, 3), "LOAD": ctx.pick("FALSE", "TRUE")}, workers=4, timeout=1500)
+        ctx.tlc_mc("data", "HeaderMapMC", consts={"MAXH": ctx.pick(2, 3), "LOAD": "FALSE"}, workers=4, timeout=1500)
+        if not ctx.quick:
+            # the same with the object optionally loaded from the wire first (smaller bound: the
+            # loaded header already holds four ordinary fields)
+            ctx.tlc_mc("data", "HeaderMapMC", consts={"MAXH": 2, "LOAD": "TRUE"}, workers=4, timeout=1500)
     path = os.path.join(ctx.scratch, "c29_behaviours.ndjson")
     out = open(path, "w")
     # exhaustive: every operation sequence of length N over the profile's op alphabet,
